@@ -6,6 +6,7 @@ import (
 	"github.com/go-i2p/crypto/dsa"
 	"github.com/go-i2p/crypto/ecdsa"
 	"github.com/go-i2p/crypto/ed25519"
+	"github.com/go-i2p/crypto/ed25519ph"
 	elgamal "github.com/go-i2p/crypto/elg"
 	"github.com/go-i2p/crypto/types"
 	"github.com/samber/oops"
@@ -415,10 +416,11 @@ func constructEd25519PHKey(data []byte) (types.SigningPublicKey, error) {
 			KEYCERT_SIGN_ED25519PH_SIZE, len(data))
 	}
 
-	// Create Ed25519PublicKey from the bytes using safe constructor
-	keyData := make([]byte, len(data))
-	copy(keyData, data)
-	ed25519ph_key, err := ed25519.NewEd25519PublicKey(keyData)
+	// The key bytes have the Ed25519 format, but signatures of this type are made over
+	// the SHA-512 pre-hash (RFC 8032 Ed25519ph). A plain Ed25519 key object would verify
+	// plain Ed25519 signatures instead, so the pre-hash key type is required here.
+	// NewEd25519phPublicKey copies the bytes.
+	ed25519ph_key, err := ed25519ph.NewEd25519phPublicKey(data)
 	if err != nil {
 		return nil, oops.Wrapf(err, "failed to construct Ed25519ph public key")
 	}
